@@ -515,7 +515,7 @@ def run(ctx):
     ctx.extra["exhaustive_bounds"] = {"T_max": ctx.scale(12, 24), "presence_patterns": 128, "switch_cases": len(cases)}
     # (b) scenes
     dt = scene_dt()
-    for i in range(ctx.scale(4, 40)):
+    for i in range(ctx.scale(3, 40)):
         T = ctx.rng.randint(6, ctx.scale(11, 20))
         sc = random_scene(ctx.rng, T, dt)
         if i == 0:   # a fixed seed scene: late start for both sources, strided detector
